@@ -147,8 +147,7 @@ def run_one(choices, params):
         with pair.Knobs(c):
             Svc = make_service(rpyc, counts)
             ca, cb, ledger = pair.connect_pair(k, rpyc.VoidService(), Svc(), compress=(bool(c.draw(2)), bool(c.draw(2))))
-            import itertools
-            ca._seqcounter = itertools.count(c.pick((0, 0, 2 ** 16 - 6, 2 ** 31 - 4, 2 ** 32 - 5, 2 ** 63 - 3)))     # knob: position in the number space
+            ca._seqcounter = pair.SeqCounter(c)     # knob: position in the number space, and one skip ahead by 2**16 / 2**31 / 2**32
             spy_dispatch(cb, info["escaped"], "B")
             spy_dispatch(ca, info["escaped"], "A")
             srv = sim.spawn(cb.serve_all, _name="B.serve_all")
